@@ -28,25 +28,92 @@ impl<T: AsyncRead + AsyncWrite + Send + Unpin + Debug> VerifIo for T {}
 /// Boxed transport.
 pub type BoxIo = Box<dyn VerifIo>;
 
-/// Run the crate's frame decoder once on `buf`.
-pub fn decode(buf: &mut BytesMut) -> io::Result<Option<(i32, StructureTag, Vec<Control>)>> {
-    let mut codec = LdapCodec {};
-    match codec.decode(buf)? {
-        None => Ok(None),
-        Some((id, (Tag::StructureTag(t), ctrls))) => Ok(Some((id, t, ctrls))),
-        Some(_) => unreachable!("decoder returns structure tags only"),
+/// Transport that never yields a byte and swallows writes; used to obtain a codec instance
+/// from the crate's own connection constructor.
+#[derive(Debug)]
+struct NullIo;
+
+impl AsyncRead for NullIo {
+    fn poll_read(
+        self: std::pin::Pin<&mut Self>,
+        _: &mut std::task::Context<'_>,
+        _: &mut tokio::io::ReadBuf<'_>,
+    ) -> std::task::Poll<io::Result<()>> {
+        std::task::Poll::Pending
     }
 }
 
-/// Run the crate's frame encoder.
+impl AsyncWrite for NullIo {
+    fn poll_write(
+        self: std::pin::Pin<&mut Self>,
+        _: &mut std::task::Context<'_>,
+        buf: &[u8],
+    ) -> std::task::Poll<io::Result<usize>> {
+        std::task::Poll::Ready(Ok(buf.len()))
+    }
+    fn poll_flush(
+        self: std::pin::Pin<&mut Self>,
+        _: &mut std::task::Context<'_>,
+    ) -> std::task::Poll<io::Result<()>> {
+        std::task::Poll::Ready(Ok(()))
+    }
+    fn poll_shutdown(
+        self: std::pin::Pin<&mut Self>,
+        _: &mut std::task::Context<'_>,
+    ) -> std::task::Poll<io::Result<()>> {
+        std::task::Poll::Ready(Ok(()))
+    }
+}
+
+/// The crate's frame codec, built by the connection constructor itself (so that whatever
+/// state the codec carries is initialised the way a real connection initialises it) and kept
+/// across calls like the codec of a real connection.
+pub struct Codec(LdapCodec);
+
+impl Codec {
+    #[allow(clippy::new_without_default)]
+    pub fn new() -> Codec {
+        let (conn, _ldap) = crate::LdapConnAsync::verif_pair(Box::new(NullIo));
+        Codec(conn.verif_into_codec())
+    }
+
+    /// Run the frame decoder once on `buf`.
+    pub fn decode(
+        &mut self,
+        buf: &mut BytesMut,
+    ) -> io::Result<Option<(i32, StructureTag, Vec<Control>)>> {
+        match self.0.decode(buf)? {
+            None => Ok(None),
+            Some((id, (Tag::StructureTag(t), ctrls))) => Ok(Some((id, t, ctrls))),
+            Some(_) => unreachable!("decoder returns structure tags only"),
+        }
+    }
+
+    /// Run the frame encoder.
+    pub fn encode(
+        &mut self,
+        id: i32,
+        op: Tag,
+        controls: Option<Vec<RawControl>>,
+        into: &mut BytesMut,
+    ) -> io::Result<()> {
+        self.0.encode((id, op, controls), into)
+    }
+}
+
+/// Run the crate's frame decoder once on `buf` (fresh codec).
+pub fn decode(buf: &mut BytesMut) -> io::Result<Option<(i32, StructureTag, Vec<Control>)>> {
+    Codec::new().decode(buf)
+}
+
+/// Run the crate's frame encoder (fresh codec).
 pub fn encode(
     id: i32,
     op: Tag,
     controls: Option<Vec<RawControl>>,
     into: &mut BytesMut,
 ) -> io::Result<()> {
-    let mut codec = LdapCodec {};
-    codec.encode((id, op, controls), into)
+    Codec::new().encode(id, op, controls, into)
 }
 
 /// Convert a protocolOp carrying an LDAPResult the way `op_call` does.
